@@ -20,8 +20,8 @@ import (
 const vpCookieKey, vpCookieVal = "VP_COOKIE", "yes-this-is-a-plugin-host"
 
 type vpOpts struct {
-	Proto      string                 // netrpc | grpc : kind of the (single, legacy, version 1) plugin set on both sides
-	Mux        bool                   // host requests gRPC broker multiplexing
+	Proto      string // netrpc | grpc : kind of the (single, legacy, version 1) plugin set on both sides
+	Mux        bool   // host requests gRPC broker multiplexing
 	AutoMTLS   bool
 	Plugin     map[string]interface{} // extra VP_CONFIG fields (behaviours)
 	SyncStdout io.Writer
